@@ -32,6 +32,7 @@ def toric3DCodeQuery (Lx Ly Lz : Nat) : List String → Option String
   | ["deform", name, axis, c] =>
     some (match Toric3DCode.getDeformation name (if axis == "-" then none else some axis) (parseCoord c) with
       | none => "ERR value" | some m => toric3DCodeShowMap m)
+  | ["rankfamily"] => some (toric3DCodeShowCoords (Toric3DCode.rankFamily Lx Ly Lz))
   | ["n"] => some (toString (Toric3DCode.lattice Lx Ly Lz).qubits.length)
   | ["k"] => some (toString (Toric3DCode.lattice Lx Ly Lz).logX.length)
   | _ => none
